@@ -255,6 +255,29 @@ theorem jar_accept {sup : List String} {E : Env} {J : JarEnv} {j : Jws} {vs : Li
     · cases h
   · cases h
 
+theorem vcJwt_accept {sup : List String} {E : Env} {issuer : String} {didOf : String → String} {j : Jws} {vs : List Verified}
+    (h : vcJwtSignature sup E issuer didOf j = .accept vs) :
+    parseJWT sup { E with resolve := fun kid => E.resolve (if kid = "" then issuer else kid) } j = .accept vs ∧
+      ∀ s, j.sigs = [s] → s.kid ≠ "" → didOf s.kid = issuer := by
+  unfold vcJwtSignature at h
+  simp only at h
+  split at h; · cases h
+  next vs' hp =>
+  split at h
+  · next s hs =>
+    split at h; · cases h
+    next hk =>
+    injection h with h
+    subst h
+    refine ⟨hp, ?_⟩
+    intro s' hs' hne
+    rw [hs] at hs'
+    injection hs' with hs' _
+    subst hs'
+    simp only [Bool.and_eq_true, decide_eq_true_eq, not_and, Decidable.not_not] at hk
+    exact hk (by simpa using hne)
+  · cases h
+
 theorem ldProof_accept {L : LdEnv} {key : Key} {canon : Bool} {parts : Nat} {dec : Bool} {vs : List Verified}
     (h : ldProofVerify L key canon parts dec = .accept vs) :
     ∃ alg, vs = [{ key := key, src := .caller, alg := alg, idx := 0, overSigningInput := true }] ∧
